@@ -23,6 +23,7 @@ V10 cross-reference: call arguments are lowered in the caller's scope before any
 V14 cross-reference: the optimiser's rewrites and the sweep keep the function (C04 O1, O4 - O10)
 V15 cross-reference: range patterns compare with both bounds, compound patterns test each field's own bits (C08 M3 / M4)
 V16 cross-reference: accepted matches are exhaustive (struct pattern fields aligned by name, number patterns inside the matched type: C17 T14 / T15)
+V17 cross-reference: first matching arm wins (C08 M1)
 """
 from .. import mir
 from ..core import AnchorMissing, Finding, RuleResult
@@ -1152,5 +1153,18 @@ def rule_v16(ctx):
     return res
 
 
+def rule_v17(ctx):
+    """Cross-reference: a match yields the value of the first matching arm only if the 'a previous arm matched' flag is an OR of
+    the arms' verdicts and drives the selector (C08-M1)."""
+    from . import C08
+    res = RuleResult("V17", "match: first matching arm wins (cross-reference to C08-M1)")
+    sub = C08.rule_m1(ctx)
+    for x in sub.findings:
+        res.bad(Finding("V17", x.fn, x.site, x.message, x.span))
+    if not sub.findings:
+        res.ok({"verdict": "C08-M1 holds"})
+    return res
+
+
 def run(ctx):
-    return ctx.run_rules([rule_v13, rule_v12, rule_v11, rule_v1, rule_v2, rule_v3, rule_v4, rule_v5, rule_v6, rule_v7, rule_v8, rule_v9, rule_v10, rule_v14, rule_v15, rule_v16])
+    return ctx.run_rules([rule_v13, rule_v12, rule_v11, rule_v1, rule_v2, rule_v3, rule_v4, rule_v5, rule_v6, rule_v7, rule_v8, rule_v9, rule_v10, rule_v14, rule_v15, rule_v16, rule_v17])
